@@ -317,7 +317,8 @@ def main(chk):
                   ">= 2 listeners.  schedules: every edge of the %d-thread ExecOnce.tla interleaving graph replayed by the baton scheduler; "
                   "non-trivial = lock acquisitions, mutex publications and once-pops" % (
                       ["%s, %d steps" % (d[1], d[0]["MaxDepth"] - 1) for d in dumps], len(swalks), sim_depth, nt),
-             checker_cmd="tlc Events.tla (VIEW View, CONSTRAINT Depth, ACTION_CONSTRAINT EmitShard); tlc -simulate Events.tla; tlc ExecOnce.tla"),
+             checker_cmd="tlc Events.tla (VIEW View, NEXT NextDump, ACTION_CONSTRAINT EmitShard, all invariants/properties; -workers 1 per shard); "
+                         "tlc -simulate Events.tla (INVARIANT SimEmit); tlc ExecOnce.tla (VIEW View, ACTION_CONSTRAINT Emit)"),
         assumptions=["a function is registered on at most one target at a time (same function twice on one target is undefined by the statement)",
                      "_Dispatch._update at most once per history; _join only at instance creation, parent not itself joined",
                      "one event name; asyncio listeners, legacy signatures, _sa_propagate_class_events=False and Events._clear are not modelled",
